@@ -124,18 +124,10 @@ Section Entry.
   Lemma entry_ok_get_entry b d t : entry_ok parse b d t (get_entry b d t) = true.
   Proof.
     unfold entry_ok, C15_Model.get_entry, part_state, check_expiry.
-    destruct (parse b) as [|rb [nb|]]; cbn.
-    - destruct d as [dd|]; cbn; auto.
-      destruct (parse dd) as [|rd [nd|]]; cbn; auto. destruct (t >? nd)%Z; auto.
-    - destruct d as [dd|]; cbn.
-      + destruct (parse dd) as [|rd [nd|]]; cbn.
-        * destruct (t >? nb)%Z; auto.
-        * destruct (t >? nb)%Z; cbn; destruct (t >? nd)%Z; cbn; auto.
-          rewrite String.eqb_refl, String.eqb_refl; auto.
-        * destruct (t >? nb)%Z; cbn; auto.
-      + destruct (t >? nb)%Z; cbn; auto. rewrite String.eqb_refl; auto.
-    - destruct d as [dd|]; cbn; auto.
-      destruct (parse dd) as [|rd [nd|]]; cbn; auto. destruct (t >? nd)%Z; auto.
+    destruct (parse b) as [|rb [nb|]]; destruct d as [dd|];
+      try destruct (parse dd) as [|rd [nd|]]; cbn;
+      repeat match goal with |- context [(?x >? ?y)%Z] => destruct (x >? y)%Z; cbn end;
+      rewrite ?String.eqb_refl; auto.
   Qed.
 
   (* a bundle is returned iff every part parses, has a NextUpdate and it has
@@ -154,9 +146,8 @@ Section Entry.
         * destruct (parse dd) as [|rd [nd|]]; try discriminate;
             destruct (t >? nb)%Z eqn:E1; try discriminate.
           destruct (t >? nd)%Z eqn:E2; try discriminate.
-          intros H; injection H as <- <-. split; eauto 8 with zarith.
-          -- exists nb; split; auto. lia.
-          -- exists rd, nd; repeat split; auto. lia.
+          intros H; injection H as <- <-.
+          split; [exists nb; split; auto; lia | exists rd, nd; repeat split; auto; lia].
         * destruct (t >? nb)%Z eqn:E1; try discriminate.
           intros H; injection H as <- <-. split; auto. exists nb; split; auto; lia.
       + destruct d as [dd|]; [destruct (parse dd) as [|rd [nd|]]|]; discriminate.
@@ -190,9 +181,9 @@ Section Entry.
     (exists dd rd nd, d = Some dd /\ parse dd = POk rd (Some nd) /\ (t > nd)%Z).
   Proof.
     unfold C15_Model.get_entry, check_expiry.
-    destruct (parse b) as [|rb [nb|]]; try discriminate.
+    destruct (parse b) as [|rb [nb|]] eqn:Eb; try discriminate.
     - destruct d as [dd|].
-      + destruct (parse dd) as [|rd [nd|]]; try discriminate;
+      + destruct (parse dd) as [|rd [nd|]] eqn:Ed; try discriminate;
           destruct (t >? nb)%Z eqn:E1; try discriminate;
           try (intros _; left; exists rb, nb; split; auto; lia).
         destruct (t >? nd)%Z eqn:E2; try discriminate.
@@ -316,14 +307,385 @@ Section Sim.
       + do 2 eexists; split; [reflexivity|]. cbn. auto.
       + do 2 eexists; split; [reflexivity|]. cbn. auto.
     - (* Get *)
-      cbn [step spec_step writes_of fst snd]. do 2 eexists; split; [|split; [eauto|split; [eauto|reflexivity]]].
-      rewrite (get_sim f s u t I Hu). reflexivity.
+      cbn [step spec_step writes_of fst snd]. rewrite (get_sim f s u t I Hu).
+      do 2 eexists; split; [reflexivity|]. split; [auto|split; [auto|reflexivity]].
     - (* the environment writes a file *)
       cbn [step spec_step writes_of fst snd]. do 2 eexists; split; [reflexivity|].
-      split; [|split; [apply keys_upd; auto|reflexivity]]. apply inv_upd; auto. cbn; auto.
+      split; [|split; [apply keys_upd; auto|reflexivity]]. apply inv_upd; auto; cbn; auto.
     - cbn [step spec_step writes_of fst snd]. do 2 eexists; split; [reflexivity|].
       split; [|split; [apply keys_del; auto|reflexivity]]. apply inv_del; auto.
     - cbn [step spec_step writes_of fst snd]. do 2 eexists; split; [reflexivity|].
-      split; [|split; [apply keys_upd; auto|reflexivity]]. apply inv_upd; auto. cbn; auto.
+      split; [|split; [apply keys_upd; auto|reflexivity]]. apply inv_upd; auto; cbn; auto.
+  Qed.
+
+  Lemma run_sim : forall ops f s,
+    inv f s -> keys_ok f -> incl (urls ops) US -> roundtrip_on enc dec ops ->
+    fst (fst (run_ops sha enc dec parse f ops)) = fst (spec_run dec parse s ops) /\
+    inv (snd (run_ops sha enc dec parse f ops)) (snd (spec_run dec parse s ops)) /\
+    keys_ok (snd (run_ops sha enc dec parse f ops)) /\
+    map (join root) (snd (fst (run_ops sha enc dec parse f ops))) = expected_writes sha ops.
+  Proof.
+    induction ops as [|o ops IH]; intros f s I K Hin Hrt.
+    - cbn. auto.
+    - assert (In (op_url o) US) as Hu by (apply Hin; cbn; auto).
+      assert (incl (urls ops) US) as Hin' by (intros x Hx; apply Hin; cbn; auto).
+      inversion Hrt as [|? ? Ho Hrt']; subst.
+      destruct (step_sim f s o I K Hu Ho) as (f1 & w & Es & I1 & K1 & W).
+      cbn [run_ops spec_run]. rewrite Es.
+      destruct (spec_step dec parse s o) as [s1 r] eqn:Esp; cbn [fst snd] in *.
+      specialize (IH f1 s1 I1 K1 Hin' Hrt').
+      destruct (run_ops sha enc dec parse f1 ops) as [[rs ws] f2].
+      destruct (spec_run dec parse s1 ops) as [rs' s2]. cbn [fst snd] in *.
+      destruct IH as (-> & I2 & K2 & W2). repeat split; auto.
+      unfold expected_writes in *. cbn [flat_map]. rewrite map_app, W, W2. reflexivity.
   Qed.
 End Sim.
+
+Lemma inv_empty sha dec US : inv sha dec US [] sempty.
+Proof. intros u _. cbn. exact I. Qed.
+
+Lemma keys_empty sha US : keys_ok sha US [].
+Proof. intros n v []. Qed.
+
+(* the cache refines the map url -> slot, for histories of any length *)
+Theorem refines sha enc dec parse ops :
+  inj_on sha (urls ops) -> roundtrip_on enc dec ops ->
+  impl_results sha enc dec parse ops = map_results dec parse ops.
+Proof.
+  intros Hi Hr.
+  apply (run_sim sha enc dec parse (urls ops) Hi ops [] sempty); auto.
+  - apply inv_empty.
+  - apply keys_empty.
+  - apply incl_refl.
+Qed.
+
+(* ---------- the map: what a url holds depends on the operations on that url only ---------- *)
+Section Spec.
+  Variable dec : string -> option (string * option string).
+  Variable parse : string -> crlfact.
+  Notation spec_run := (spec_run dec parse).
+  Notation spec_step := (spec_step dec parse).
+
+  Lemma spec_run_app a : forall b s,
+    spec_run s (a ++ b)%list =
+      ((fst (spec_run s a) ++ fst (spec_run (snd (spec_run s a)) b))%list,
+       snd (spec_run (snd (spec_run s a)) b)).
+  Proof.
+    induction a as [|o a IH]; intros b s; cbn [app C15_Model.spec_run].
+    - cbn. destruct (spec_run s b); reflexivity.
+    - destruct (spec_step s o) as [s1 r]. rewrite IH.
+      destruct (spec_run s1 a) as [ra sa]. cbn [fst snd].
+      destruct (spec_run sa b) as [rb sb]. reflexivity.
+  Qed.
+
+  Lemma supd_other u v x s : v <> u -> supd u x s v = s v.
+  Proof.
+    intros N. unfold supd. destruct (String.eqb v u) eqn:E; auto.
+    apply String.eqb_eq in E; contradiction.
+  Qed.
+
+  Lemma supd_same u x s : supd u x s u = x.
+  Proof. unfold supd. rewrite String.eqb_refl; auto. Qed.
+
+  Lemma step_other s o u : op_url o <> u -> fst (spec_step s o) u = s u.
+  Proof.
+    intros N. destruct o as [v bd|v t|v c|v|v]; cbn in *; auto;
+      try (apply supd_other; congruence).
+    destruct bd as [[[b|] d]|]; cbn; auto.
+    destruct (s v) as [[| |]|]; cbn; auto; apply supd_other; congruence.
+  Qed.
+
+  Lemma run_others ops : forall s u,
+    (forall o, In o ops -> op_url o <> u) -> snd (spec_run s ops) u = s u.
+  Proof.
+    induction ops as [|o ops IH]; intros s u H; cbn [C15_Model.spec_run]; auto.
+    pose proof (step_other s o u (H o (or_introl eq_refl))) as E.
+    destruct (spec_step s o) as [s1 r]. cbn [fst] in E.
+    specialize (IH s1 u (fun o' Ho' => H o' (or_intror Ho'))).
+    destruct (spec_run s1 ops) as [rs s2]. cbn [snd] in *. congruence.
+  Qed.
+
+  (* the step on a url looks at the slot of that url only *)
+  Lemma step_local s1 s2 o :
+    s1 (op_url o) = s2 (op_url o) ->
+    snd (spec_step s1 o) = snd (spec_step s2 o) /\
+    fst (spec_step s1 o) (op_url o) = fst (spec_step s2 o) (op_url o).
+  Proof.
+    intros E. destruct o as [v bd|v t|v c|v|v]; cbn in *; rewrite ?supd_same; auto.
+    - destruct bd as [[[b|] d]|]; cbn; auto. rewrite <- E.
+      destruct (s1 v) as [[| |]|] eqn:E1; cbn; rewrite ?supd_same; auto; split; congruence.
+    - rewrite E; auto.
+  Qed.
+
+  Lemma run_filter ops : forall s1 s2 u,
+    s1 u = s2 u ->
+    snd (spec_run s1 ops) u = snd (spec_run s2 (filter (on_url u) ops)) u.
+  Proof.
+    induction ops as [|o ops IH]; intros s1 s2 u E; cbn [C15_Model.spec_run filter]; auto.
+    unfold on_url at 1. destruct (String.eqb (op_url o) u) eqn:Eu.
+    - apply String.eqb_eq in Eu. cbn [C15_Model.spec_run].
+      assert (s1 (op_url o) = s2 (op_url o)) as E' by (rewrite Eu; auto).
+      destruct (step_local s1 s2 o E') as [_ Hs]. rewrite Eu in Hs.
+      destruct (spec_step s1 o) as [s1' r1], (spec_step s2 o) as [s2' r2]. cbn [fst] in Hs.
+      specialize (IH s1' s2' u Hs).
+      destruct (spec_run s1' ops), (spec_run s2' (filter (on_url u) ops)). auto.
+    - assert (op_url o <> u) as N by (intros X; rewrite X, String.eqb_refl in Eu; discriminate).
+      pose proof (step_other s1 o u N) as Hs.
+      destruct (spec_step s1 o) as [s1' r1]. cbn [fst] in Hs.
+      assert (s1' u = s2 u) as E' by congruence.
+      specialize (IH s1' s2 u E'). destruct (spec_run s1' ops). auto.
+  Qed.
+
+  (* without a directory planted by the environment, no slot is a directory *)
+  Lemma run_no_dir ops : forall s u,
+    s u <> Some SDir -> (forall o, In o ops -> o <> OMkdir u) ->
+    snd (spec_run s ops) u <> Some SDir.
+  Proof.
+    induction ops as [|o ops IH]; intros s u Hs H; cbn [C15_Model.spec_run]; auto.
+    assert (fst (spec_step s o) u <> Some SDir) as Hs1.
+    { destruct (string_dec (op_url o) u) as [E|N]; [|rewrite step_other; auto].
+      assert (o <> OMkdir u) as Ho by (apply H; cbn; auto).
+      destruct o as [v bd|v t|v c|v|v]; cbn in E; subst v; cbn; rewrite ?supd_same; auto; try discriminate.
+      - destruct bd as [[[b|] d]|]; cbn; auto.
+        destruct (s u) as [[| |]|] eqn:E1; cbn; rewrite ?supd_same; auto; try discriminate; congruence.
+      - intros X; injection X as X. eapply slot_of_not_dir; eauto. }
+    destruct (spec_step s o) as [s1 r]. cbn [fst] in Hs1.
+    specialize (IH s1 u Hs1 (fun o' Ho' => H o' (or_intror Ho'))).
+    destruct (spec_run s1 ops). auto.
+  Qed.
+
+  (* the oracle's replay of a history accepts the map's own results *)
+  Lemma check_spec_run ops : forall s,
+    check dec parse s ops (fst (spec_run s ops)) = Some (snd (spec_run s ops)).
+  Proof.
+    induction ops as [|o ops IH]; intros s; cbn [C15_Model.spec_run]; auto.
+    destruct (spec_step s o) as [s1 r] eqn:Es.
+    specialize (IH s1). destruct (spec_run s1 ops) as [rs s2]. cbn [fst snd] in *.
+    destruct o as [v bd|v t|v c|v|v]; cbn in Es |- *.
+    - destruct bd as [[[b|] d]|]; cbn in Es.
+      + destruct (s v) as [[| |]|]; injection Es as <- <-; cbn; auto.
+      + injection Es as <- <-; cbn; auto.
+      + injection Es as <- <-; cbn; auto.
+    - injection Es as <- <-.
+      assert (get_ok parse (s v) t (spec_get parse (s v) t) = true) as ->; auto.
+      destruct (s v) as [[b d| |]|]; cbn; auto. apply entry_ok_get_entry.
+    - injection Es as <- <-; auto.
+    - injection Es as <- <-; auto.
+    - injection Es as <- <-; auto.
+  Qed.
+End Spec.
+
+(* ---------- the theorems of the property ---------- *)
+Section Top.
+  Variable sha : string -> string.
+  Variable enc : string -> option string -> string.
+  Variable dec : string -> option (string * option string).
+  Variable parse : string -> crlfact.
+  Notation results := (impl_results sha enc dec parse).
+  Notation fname := (file_name sha).
+
+  (* the answer to a final Get is the map's answer for what the url holds *)
+  Lemma final_get ops u t :
+    inj_on sha (urls (ops ++ [OGet u t])) -> roundtrip_on enc dec (ops ++ [OGet u t]) ->
+    last (results (ops ++ [OGet u t])%list) RNone = spec_get parse (map_after dec parse ops u) t.
+  Proof.
+    intros Hi Hr. rewrite refines; auto. unfold map_results, map_after.
+    rewrite spec_run_app. cbn [fst snd C15_Model.spec_run spec_step]. apply last_last.
+  Qed.
+
+  Theorem get_after_set pre mid u b d t :
+    let ops := (pre ++ OSet u (Some (Some b, d)) :: mid)%list in
+    inj_on sha (urls (ops ++ [OGet u t])) -> roundtrip_on enc dec (ops ++ [OGet u t]) ->
+    (forall o, In o pre -> o <> OMkdir u) ->
+    (forall o, In o mid -> op_url o <> u) ->
+    last (results (ops ++ [OGet u t])%list) RNone = get_entry parse b (norm d) t.
+  Proof.
+    intros ops Hi Hr Hpre Hmid. rewrite final_get; auto.
+    unfold ops, map_after. rewrite spec_run_app. cbn [snd].
+    assert (snd (spec_run dec parse sempty pre) u <> Some SDir) as Hnd.
+    { apply run_no_dir; auto. cbn. discriminate. }
+    set (s0 := snd (spec_run dec parse sempty pre)) in *.
+    cbn [C15_Model.spec_run spec_step].
+    assert (exists s1, (match s0 u with
+                        | Some SDir => (s0, RErr 9)
+                        | _ => (supd u (Some (SEntry b (norm d))) s0, ROk)
+                        end) = (s1, ROk) /\ s1 u = Some (SEntry b (norm d))) as (s1 & -> & E1).
+    { destruct (s0 u) as [[| |]|]; try (eexists; split; [reflexivity|apply supd_same]).
+      contradiction Hnd; auto. }
+    pose proof (run_others dec parse mid s1 u Hmid) as Eo.
+    destruct (spec_run dec parse s1 mid) as [rs s2]. cbn [snd] in *.
+    rewrite Eo, E1. reflexivity.
+  Qed.
+
+  Theorem get_never_set ops u t :
+    inj_on sha (urls (ops ++ [OGet u t])) -> roundtrip_on enc dec (ops ++ [OGet u t]) ->
+    (forall o, In o ops -> op_url o <> u) ->
+    last (results (ops ++ [OGet u t])%list) RNone = RMiss 0.
+  Proof.
+    intros Hi Hr H. rewrite final_get; auto. unfold map_after.
+    rewrite run_others; auto.
+  Qed.
+
+  (* a corrupted entry: the last thing that happened to the url's file is that
+     it was overwritten with bytes that do not decode, or whose parts do not parse *)
+  Notation not_an_entry := (not_an_entry dec parse).
+
+  Theorem corrupt_error (f : fs) u t c :
+    alookup (fname u) f = Some (Some c) -> not_an_entry c ->
+    exists k, get sha dec parse f u t = RErr k.
+  Proof.
+    intros El H.
+    destruct H as [Hd|(b & d & Hd & H)];
+      [exists 2%N | destruct (unparsable_error parse b d t H) as (k & Ek & _); exists k];
+      unfold get; rewrite El, Hd; auto.
+  Qed.
+
+  Theorem corrupt_history pre mid u c t :
+    let ops := (pre ++ OPut u c :: mid)%list in
+    inj_on sha (urls (ops ++ [OGet u t])) -> roundtrip_on enc dec (ops ++ [OGet u t]) ->
+    (forall o, In o mid -> op_url o <> u) -> not_an_entry c ->
+    exists k, last (results (ops ++ [OGet u t])%list) RNone = RErr k.
+  Proof.
+    intros ops Hi Hr Hmid H. rewrite final_get; auto.
+    unfold ops, map_after. rewrite spec_run_app. cbn [snd C15_Model.spec_run spec_step].
+    set (s1 := supd u (Some (slot_of (dec c))) (snd (spec_run dec parse sempty pre))).
+    pose proof (run_others dec parse mid s1 u Hmid) as Eo.
+    destruct (spec_run dec parse s1 mid) as [rs s2]. cbn [snd] in *.
+    destruct H as [Hd|(b & d & Hd & H)];
+      [exists 2%N | destruct (unparsable_error parse b d t H) as (k & Ek & _); exists k];
+      rewrite Eo; unfold s1; rewrite supd_same, Hd; cbn; auto.
+  Qed.
+
+  Theorem set_nil_nothing (f : fs) u :
+    set sha enc f u None = (f, RErr 7, []) /\
+    forall d, set sha enc f u (Some (None, d)) = (f, RErr 8, []).
+  Proof. split; reflexivity. Qed.
+
+  (* isolation, one step: a Set on u leaves the file of every other url alone *)
+  Theorem set_isolated (f : fs) u u' bd t :
+    u' <> u -> (sha u' = sha u -> u' = u) ->
+    alookup (fname u') (fst (fst (set sha enc f u bd))) = alookup (fname u') f /\
+    get sha dec parse (fst (fst (set sha enc f u bd))) u' t = get sha dec parse f u' t.
+  Proof.
+    intros N Hi.
+    assert (fname u' <> fname u) as Nf by (intros E; apply hex_inj in E; auto).
+    assert (alookup (fname u') (fst (fst (set sha enc f u bd))) = alookup (fname u') f) as E.
+    { destruct bd as [[[b|] d]|]; cbn; auto.
+      destruct (alookup (fname u) f) as [[c|]|]; cbn; auto; apply alookup_aset_other; auto. }
+    split; auto. unfold get. rewrite E. reflexivity.
+  Qed.
+
+  (* isolation, whole histories: what a Get on u answers does not depend on any
+     operation on another url *)
+  Theorem isolated_history ops u t :
+    inj_on sha (urls (ops ++ [OGet u t])) -> roundtrip_on enc dec (ops ++ [OGet u t]) ->
+    last (results (ops ++ [OGet u t])%list) RNone =
+    last (results (filter (on_url u) ops ++ [OGet u t])%list) RNone.
+  Proof.
+    intros Hi Hr.
+    assert (forall o, In o (filter (on_url u) ops ++ [OGet u t])%list -> In o (ops ++ [OGet u t])%list) as Hsub.
+    { intros o Ho. apply in_app_or in Ho as [Ho|Ho]; apply in_or_app; auto.
+      apply filter_In in Ho as [Ho _]; auto. }
+    rewrite !final_get; auto.
+    - f_equal. unfold map_after. apply run_filter; auto.
+    - intros x y Hx Hy. unfold urls in *. apply in_map_iff in Hx as (ox & <- & Hox).
+      apply in_map_iff in Hy as (oy & <- & Hoy).
+      apply Hi; apply in_map; auto.
+    - unfold roundtrip_on in *. rewrite Forall_forall in *. auto.
+  Qed.
+
+  (* Get looks at the file of its url only *)
+  Theorem get_reads_only (f f' : fs) u t :
+    alookup (fname u) f = alookup (fname u) f' ->
+    get sha dec parse f u t = get sha dec parse f' u t.
+  Proof. intros E. unfold get. rewrite E. reflexivity. Qed.
+
+  (* the file name: lower-case hex digits only, two per digest byte *)
+  Theorem file_name_shape u :
+    all_chars is_hexdigit (fname u) = true /\
+    String.length (fname u) = 2 * String.length (sha u).
+  Proof. split; [apply hex_alphabet | apply hex_length]. Qed.
+
+  Theorem file_name_no_byte u c : is_hexdigit c = false -> contains_byte c (fname u) = false.
+  Proof. intros H. eapply all_chars_no_byte; eauto. apply hex_alphabet. Qed.
+
+  Lemma step_writes f o : map (join root) (snd (step sha enc dec parse f o)) = writes_of sha o.
+  Proof.
+    destruct o as [u bd|u t|u c|u|u]; cbn; auto.
+    destruct bd as [[[b|] d]|]; cbn; auto.
+    destruct (alookup (fname u) f) as [[c|]|]; cbn; auto.
+  Qed.
+
+  Lemma run_writes ops : forall f,
+    map (join root) (snd (fst (run_ops sha enc dec parse f ops))) = expected_writes sha ops.
+  Proof.
+    induction ops as [|o ops IH]; intros f; cbn [run_ops]; auto.
+    pose proof (step_writes f o) as W.
+    destruct (step sha enc dec parse f o) as [[f1 r] w]. cbn [snd] in W.
+    specialize (IH f1). destruct (run_ops sha enc dec parse f1 ops) as [[rs ws] f2]. cbn [fst snd] in *.
+    unfold expected_writes in *. cbn [flat_map]. rewrite map_app, W, IH. reflexivity.
+  Qed.
+
+  (* every destination handed to file.WriteFile is root/<file name of a url of the history> *)
+  Theorem writes_in_root ops p :
+    In p (map (join root) (impl_writes sha enc dec parse ops)) ->
+    exists u, In u (urls ops) /\ p = join root (fname u).
+  Proof.
+    unfold impl_writes. rewrite run_writes. unfold expected_writes. intros H.
+    apply in_flat_map in H as (o & Ho & Hp).
+    exists (op_url o). split; [apply in_map; auto|].
+    destruct o as [u bd|u t|u c|u|u]; cbn in Hp; try contradiction.
+    destruct bd as [[[b|] d]|]; cbn in Hp; try contradiction.
+    destruct Hp as [<-|[]]. reflexivity.
+  Qed.
+End Top.
+
+(* ---------- the model meets the oracle ---------- *)
+Lemma inj_b_on sha us : inj_b sha us = true -> inj_on sha us.
+Proof.
+  unfold inj_b. intros H u v Hu Hv E.
+  rewrite forallb_forall in H.
+  assert (forall x, In x us -> In (x, sha x) (map (fun u => (u, sha u)) (dedup us))) as Hin.
+  { intros x Hx. apply in_map_iff. exists x; split; auto. apply (proj2 (In_dedup _ _)); auto. }
+  specialize (H _ (Hin u Hu)). rewrite forallb_forall in H. specialize (H _ (Hin v Hv)).
+  cbn in H. rewrite E, String.eqb_refl in H. apply String.eqb_eq; auto.
+Qed.
+
+Lemma dec_res_eqb_eq a b : dec_res_eqb a b = true -> a = b.
+Proof.
+  destruct a as [[a1 a2]|], b as [[b1 b2]|]; cbn; try discriminate; auto.
+  intros H. apply andb_true_iff in H as [H1 H2].
+  apply String.eqb_eq in H1. apply opt_str_eqb_eq in H2. congruence.
+Qed.
+
+Lemma roundtrip_b_on dec ops : roundtrip_b dec ops = true -> roundtrip_on enc_json dec ops.
+Proof.
+  unfold roundtrip_b, roundtrip_on. rewrite forallb_forall, Forall_forall.
+  intros H o Ho. specialize (H o Ho).
+  destruct o as [u bd|u t|u c|u|u]; cbn; auto.
+  destruct bd as [[[b|] d]|]; cbn; auto. apply dec_res_eqb_eq; auto.
+Qed.
+
+Lemma rel_node_ok dec n sl : rel dec n sl -> node_ok dec n sl = true.
+Proof.
+  unfold rel, node_ok. destruct n as [[c|]|], sl as [[| |]|]; try contradiction; auto;
+    intros ->; apply slot_eqb_refl.
+Qed.
+
+Theorem model_spec_ok : forall i, wf i = true -> spec_ok i (model i) = true.
+Proof.
+  intros i H. unfold wf in H.
+  apply andb_true_iff in H as [H Hrt]. apply andb_true_iff in H as [Hinj _].
+  apply inj_b_on in Hinj. apply roundtrip_b_on in Hrt.
+  destruct (run_sim (tab_sha i) enc_json (tab_dec i) (tab_parse i) (urls (i_ops i)) Hinj
+              (i_ops i) [] sempty (inv_empty _ _ _) (keys_empty _ _) (incl_refl _) Hrt)
+    as (Er & I & K & W).
+  unfold model, spec_ok.
+  destruct (run_ops (tab_sha i) enc_json (tab_dec i) (tab_parse i) [] (i_ops i)) as [[rs ws] f].
+  cbn [fst snd o_res o_writes o_files o_outside o_temps_ok] in *.
+  rewrite Er, check_spec_run, W, list_eqb_str_refl. rewrite !andb_true_r.
+  unfold files_ok. apply andb_true_iff. split.
+  - apply forallb_forall. intros u Hu. apply (proj1 (In_dedup _ _)) in Hu. apply rel_node_ok. apply I; auto.
+  - apply forallb_forall. intros [n v] Hn. destruct (K n v Hn) as (u & Hu & ->).
+    apply existsb_exists. exists u. split; [apply (proj2 (In_dedup _ _)); auto|]. cbn. apply String.eqb_refl.
+Qed.
